@@ -12,3 +12,15 @@ class zutil:
 class Outer:
     class Inner:
         pass
+
+
+import typing as _t
+
+_T = _t.TypeVar("_T")
+
+
+class Reg:
+    """A user-defined generic class nested in another class (C11: reaches the renderer through source annotations)."""
+
+    class Slot(_t.Generic[_T]):
+        pass
